@@ -163,17 +163,44 @@ func checkFreshLayers(c *Ctx, r *Report, rule string) {
 					if !reg[sel] {
 						continue
 					}
-					entryFresh := false
-					where := "function entry (connection may have decoded earlier replies)"
-					if rs, isOp := retryOps[fn]; isOp {
-						if retriedAfterDecode(fn) {
-							entryFresh = false
-							where = "closure re-entered by backoff.Retry after a decode"
-						} else {
-							entryFresh, _ = freshAt(rs.Parent, sel, rs.Call, false)
-							where = "state at backoff.Retry in " + c.FnName(rs.Parent)
+					var entryState func(fn *ssa.Function, depth int) (bool, string)
+					entryState = func(fn *ssa.Function, depth int) (bool, string) {
+						if rs, isOp := retryOps[fn]; isOp {
+							if retriedAfterDecode(fn) {
+								return false, "closure re-entered by backoff.Retry after a decode"
+							}
+							fresh, _ := freshAt(rs.Parent, sel, rs.Call, false)
+							return fresh, "state at backoff.Retry in " + c.FnName(rs.Parent)
 						}
+						// a helper that only ever runs as part of its callers: the state at its entry is
+						// the state at its call sites
+						if depth > 0 && c.onlySpliced(fn) {
+							all, n := true, 0
+							for _, g := range c.ModFn {
+								// (promotion wrappers of an unexported method are never called: calls through an
+								// embedded field are direct calls of the method)
+								if g.Blocks == nil || g.Synthetic != "" {
+									continue
+								}
+								rawInstrs(g, false, func(i ssa.Instruction) {
+									cl, isCall := i.(*ssa.Call)
+									if !isCall || cl.Call.StaticCallee() != fn {
+										return
+									}
+									n++
+									gFresh, _ := entryState(g, depth-1)
+									if ok, _ := freshAt(g, sel, cl, gFresh); !ok {
+										all = false
+									}
+								})
+							}
+							if n > 0 {
+								return all, fmt.Sprintf("state at the helper's %d call sites", n)
+							}
+						}
+						return false, "function entry (connection may have decoded earlier replies)"
 					}
+					entryFresh, where := entryState(fn, 2)
 					ok, why := freshAt(fn, sel, call, entryFresh)
 					r.Check(ok, c.FnName(fn)+"|SerializeLayers("+sel+")", call.Pos(), why, "layer "+sel+" may still hold the previously decoded reply when it is serialised ("+where+"): "+why)
 				}
